@@ -28,8 +28,22 @@ pub async fn run_ls(cmd_args: CmdArgs) -> Result<(), Box<dyn Error + Sync + Send
         }
     };
 
-    let (id, params) = connection.initialize_start()?;
-    let initialization_params: InitializeParams = serde_json::from_value(params).unwrap();
+    // An `initialize` request whose params do not deserialize is answered with an error (instead of
+    // panicking) and the server keeps waiting for a valid `initialize`.
+    let (id, initialization_params) = loop {
+        let (id, params) = connection.initialize_start()?;
+        match serde_json::from_value::<InitializeParams>(params) {
+            Ok(initialization_params) => break (id, initialization_params),
+            Err(err) => {
+                let response = ::lsp_server::Response::new_err(
+                    id,
+                    ::lsp_server::ErrorCode::InvalidParams as i32,
+                    format!("invalid initialize params: {err}"),
+                );
+                connection.sender.send(response.into())?;
+            }
+        }
+    };
     let server_capabilities = server_capabilities(&initialization_params.capabilities);
     let initialize_data = serde_json::json!({
         "capabilities": server_capabilities,
